@@ -779,6 +779,9 @@ class CompressedBytesColumn(Column):
         self._level = level
         self._module = module
 
+    def default_value(self, reverse=False):
+        return emptybytes
+
     def writer(self, dbfile):
         return self.Writer(dbfile, self._level, self._module)
 
@@ -1129,6 +1132,9 @@ class WrappedColumn(Column):
     def stores_lists(self):
         return self._child.stores_lists()
 
+    def default_value(self, reverse=False):
+        return self._child.default_value(reverse)
+
 
 class WrappedColumnWriter(ColumnWriter):
     def __init__(self, child):
@@ -1197,6 +1203,10 @@ class PickleColumn(WrappedColumn):
     overhead of pickling and unpickling.
     """
 
+    def default_value(self, reverse=False):
+        # What the reader returns for a document without a value
+        return None
+
     class Writer(WrappedColumnWriter):
         def __repr__(self):
             return "<PickleWriter>"
@@ -1232,6 +1242,10 @@ class PickleColumn(WrappedColumn):
 class ListColumn(WrappedColumn):
     def stores_lists(self):
         return True
+
+    def default_value(self, reverse=False):
+        # What the reader returns for a document without a value
+        return []
 
 
 class ListColumnReader(ColumnReader):
